@@ -986,8 +986,35 @@ def c_csr_h_reference():
     out.append(r)
     return dict(results=out, functions=["litex.soc.integration.export.get_csr_header (address reference)", "litex.soc.integration.soc.SoC.finalize (csr regions)"], samples=[dict(config="no bank at location 0", locs=dict(soc.csr.locs))])
 
+def c_csr_pinned_at_limit():
+    """banks pinned by number at the edge of the CSR address space (locations n_locs-1, n_locs, n_locs+1; default and small paging): a request is either
+    refused (SoCError) or every published bank base lies inside the csr bus region - the only addresses at which the CSR bridge and the banks can answer"""
+    from litex.soc.integration.soc import SoCError
+    out = []; seen = dict(accepted=0, refused=0)
+    for paging in (0x800, 0x400):
+        probe = SoCCore(P(), 100e6, cpu_type=None, integrated_sram_size=0x100, with_uart=False, with_timer=False, with_ctrl=False, ident="", ident_version=False, csr_paging=paging); elab.restore_stderr()
+        n_locs = probe.csr.n_locs
+        for n in (n_locs - 1, n_locs, n_locs + 1):
+            soc = SoCCore(P(), 100e6, cpu_type=None, integrated_sram_size=0x100, with_uart=False, with_timer=False, with_ctrl=False, ident="", ident_version=False, csr_paging=paging); elab.restore_stderr()
+            soc.aaa = PinnedFirst(); tag = f"paging={paging:#x},location={n} of {n_locs}"
+            try:
+                soc.csr.add("aaa", n=n)
+                soc.bus.add_master("tb", wishbone.Interface(data_width=32, address_width=32, addressing="word"))
+                soc.finalize(); elab.restore_stderr()
+            except SoCError:
+                elab.restore_stderr(); seen["refused"] += 1
+                out.append(res(f"ens.bank-pinned-at-the-edge[{tag}]:refused-or-published-inside-the-csr-region", "ensures", OK, 0, "executed", info="refused (SoCError)")); continue
+            seen["accepted"] += 1
+            reg = soc.bus.regions["csr"]; js = json.loads(export.get_csr_json(soc.csr_regions, soc.constants, soc.mem_regions))
+            base = js["csr_bases"].get("aaa"); inside = base is not None and reg.origin <= base and base + 4 <= reg.origin + reg.size
+            out.append(res(f"ens.bank-pinned-at-the-edge[{tag}]:refused-or-published-inside-the-csr-region", "ensures", OK if inside else VIOLATED, 0, "executed (real SoC, real exporter)", replayed=True,
+                           witness=dict(request=f"csr.add('aaa', n={n})", published_base=hex(base) if base is not None else None, csr_region=f"{reg.origin:#x}+{reg.size:#x}"),
+                           info="" if inside else "the bank is published beyond the csr bus region: neither the bus decoder nor a bank select can match there"))
+    out.append(res("cover.both-outcomes-seen", "cover", OK if seen["accepted"] and seen["refused"] else VACUOUS, 0, "executed", **seen))
+    return dict(results=out, functions=["litex.soc.integration.soc.SoCCSRHandler / SoCLocHandler.add (boundary locations) -> export.get_csr_json"], samples=[dict(config="bank pinned at n_locs-1, n_locs, n_locs+1")])
+
 def cases(tier):
-    cs = [VCase("csr.h-address-reference(no bank at location 0)", c_csr_h_reference), VCase("get_mem_data(dw32,little,file)", c_mem_data_proof, 32, "little"), VCase("get_mem_data(dw32,big,file)", c_mem_data_proof, 32, "big"),
+    cs = [VCase("csr.h-address-reference(no bank at location 0)", c_csr_h_reference), VCase("csr-bank-pinned-at-the-edge", c_csr_pinned_at_limit), VCase("get_mem_data(dw32,little,file)", c_mem_data_proof, 32, "little"), VCase("get_mem_data(dw32,big,file)", c_mem_data_proof, 32, "big"),
           VCase("get_mem_data(dw64,little,file)", c_mem_data_proof, 64, "little"), VCase("get_mem_data(dw64,big,file)", c_mem_data_proof, 64, "big"),
           VCase("get_mem_data(dw128,little,file)", c_mem_data_proof, 128, "little"),
           VCase("get_mem_data(dw32,big,regions dict x1)", c_mem_data_proof, 32, "big", 1, True),
